@@ -487,6 +487,120 @@ func pathFactsAt(parents map[ast.Node]ast.Node, n ast.Node) []pathFact {
 	return out
 }
 
+// guardFact: a comparison known to hold (neg: not to hold) at some node; when it was read out of a boolean helper of the
+// package, args maps the helper's parameters (and receiver) to the arguments of the call that tested it.
+type guardFact struct {
+	pathFact
+	args map[types.Object]ast.Expr
+}
+
+// says: the fact says  a (op) b  (named form, cuts up to their integer normal form).
+func (g guardFact) says(info *types.Info, a, b Poly, op token.Token) bool {
+	saved := polyArgs
+	if g.args != nil {
+		polyArgs = g.args
+	}
+	defer func() { polyArgs = saved }()
+	return factSays(info, g.pathFact, a, b, op)
+}
+
+// guardFacts: pathFactsAt, with every condition that is a call of a boolean function of the package replaced by what
+// that function tests when it answers true: a body of guards `if C { return false }` followed by `return E` answers
+// true exactly when no C holds and E does.
+func guardFacts(p *Prog, pk *packages.Package, parents map[ast.Node]ast.Node, n ast.Node) []guardFact {
+	info := pk.TypesInfo
+	var out []guardFact
+	for _, cd := range pathCondsAt(parents, n) {
+		if be, ok := cd.e.(*ast.BinaryExpr); ok {
+			out = append(out, guardFact{pathFact{be, cd.neg, cd.loop}, nil})
+			continue
+		}
+		call, ok := cd.e.(*ast.CallExpr)
+		if !ok || cd.neg {
+			continue
+		}
+		f := calleeFunc(info, call)
+		if f == nil || f.Pkg() != pk.Types {
+			continue
+		}
+		hd := declOfFunc(pk, f)
+		if hd == nil || hd.Body == nil || hd.Type.Results == nil || len(hd.Type.Results.List) != 1 {
+			continue
+		}
+		if b, ok := info.TypeOf(hd.Type.Results.List[0].Type).Underlying().(*types.Basic); !ok || b.Kind() != types.Bool {
+			continue
+		}
+		args := map[types.Object]ast.Expr{}
+		i := 0
+		for _, fl := range hd.Type.Params.List {
+			for _, nm := range fl.Names {
+				if i < len(call.Args) {
+					args[info.Defs[nm]] = call.Args[i]
+				}
+				i++
+			}
+		}
+		if hd.Recv != nil && len(hd.Recv.List) == 1 && len(hd.Recv.List[0].Names) == 1 {
+			if sel, ok := ast.Unparen(call.Fun).(*ast.SelectorExpr); ok {
+				args[info.Defs[hd.Recv.List[0].Names[0]]] = sel.X
+			}
+		}
+		var leaves func(e ast.Expr, neg bool)
+		leaves = func(e ast.Expr, neg bool) {
+			switch x := ast.Unparen(e).(type) {
+			case *ast.UnaryExpr:
+				if x.Op == token.NOT {
+					leaves(x.X, !neg)
+				}
+			case *ast.BinaryExpr:
+				switch {
+				case x.Op == token.LAND && !neg, x.Op == token.LOR && neg:
+					leaves(x.X, neg)
+					leaves(x.Y, neg)
+				case x.Op == token.LAND || x.Op == token.LOR:
+				default:
+					out = append(out, guardFact{pathFact{x, neg, false}, args})
+				}
+			}
+		}
+		okForm := true
+		for k, st := range hd.Body.List {
+			switch x := st.(type) {
+			case *ast.IfStmt:
+				if x.Else != nil || x.Init != nil || len(x.Body.List) != 1 {
+					okForm = false
+					break
+				}
+				r, isRet := x.Body.List[0].(*ast.ReturnStmt)
+				if !isRet || len(r.Results) != 1 {
+					okForm = false
+					break
+				}
+				if tv, ok := info.Types[r.Results[0]]; ok && tv.Value != nil && tv.Value.String() == "false" {
+					leaves(x.Cond, true)
+				} else {
+					okForm = false
+				}
+			case *ast.ReturnStmt:
+				if k != len(hd.Body.List)-1 || len(x.Results) != 1 {
+					okForm = false
+					break
+				}
+				if tv, ok := info.Types[x.Results[0]]; ok && tv.Value != nil {
+					break // return true
+				}
+				leaves(x.Results[0], false)
+			default:
+				okForm = false
+			}
+			if !okForm {
+				break
+			}
+		}
+	}
+	return out
+}
+
 // ruleIndexGuard: for every slice index s[i], the comparisons of i with len(s) that hold on the way to it (resolved
 // forms: locals by their reaching definition, conversions dropped, either operand order, either polarity, the guard
 // as an early refusal, an enclosing branch, a loop condition or a short-circuit operand) bound i - len(s) from above;
@@ -696,6 +810,100 @@ func init() {
 		Run: rulePoolItem})
 }
 
+// structBuild: one construction of a struct value in a function body: a composite literal, or a local of the type
+// (declared with var, new(T) or a literal) together with the field assignments made on it.
+type structBuild struct {
+	fields map[string]ast.Expr
+	pos    token.Pos
+}
+
+func structBuilds(info *types.Info, body *ast.BlockStmt, typeName string) []structBuild {
+	isT := func(t types.Type) bool {
+		if t == nil {
+			return false
+		}
+		nt := namedOf(t)
+		return nt != nil && nt.Obj().Name() == typeName
+	}
+	var out []structBuild
+	byLocal := map[types.Object]*structBuild{}
+	litOf := map[*ast.CompositeLit]*structBuild{}
+	ast.Inspect(body, func(n ast.Node) bool {
+		switch x := n.(type) {
+		case *ast.CompositeLit:
+			if _, isStruct := info.TypeOf(x).Underlying().(*types.Struct); isStruct && isT(info.TypeOf(x)) {
+				b := &structBuild{fields: map[string]ast.Expr{}, pos: x.Pos()}
+				for _, el := range x.Elts {
+					if kv, ok := el.(*ast.KeyValueExpr); ok {
+						if id, ok := kv.Key.(*ast.Ident); ok {
+							b.fields[id.Name] = kv.Value
+						}
+					}
+				}
+				litOf[x] = b
+			}
+		}
+		return true
+	})
+	claimed := map[*ast.CompositeLit]bool{}
+	ast.Inspect(body, func(n ast.Node) bool {
+		switch x := n.(type) {
+		case *ast.AssignStmt:
+			if len(x.Lhs) != len(x.Rhs) {
+				return true
+			}
+			for i, l := range x.Lhs {
+				// x := T{…} / &T{…} / new(T)
+				if id, ok := l.(*ast.Ident); ok {
+					o := info.ObjectOf(id)
+					r := ast.Unparen(x.Rhs[i])
+					if u, ok := r.(*ast.UnaryExpr); ok && u.Op == token.AND {
+						r = ast.Unparen(u.X)
+					}
+					if cl, ok := r.(*ast.CompositeLit); ok && litOf[cl] != nil {
+						byLocal[o] = litOf[cl]
+						claimed[cl] = true
+					}
+					if call, ok := r.(*ast.CallExpr); ok && len(call.Args) == 1 {
+						if fid, ok := call.Fun.(*ast.Ident); ok && fid.Name == "new" && isT(info.TypeOf(call.Args[0])) {
+							byLocal[o] = &structBuild{fields: map[string]ast.Expr{}, pos: x.Pos()}
+						}
+					}
+				}
+				// x.F = v
+				if sel, ok := ast.Unparen(l).(*ast.SelectorExpr); ok && x.Tok == token.ASSIGN {
+					if id, ok := ast.Unparen(sel.X).(*ast.Ident); ok && isT(info.TypeOf(id)) {
+						o := info.ObjectOf(id)
+						if byLocal[o] == nil {
+							byLocal[o] = &structBuild{fields: map[string]ast.Expr{}, pos: x.Pos()}
+						}
+						byLocal[o].fields[sel.Sel.Name] = x.Rhs[i]
+					}
+				}
+			}
+		}
+		return true
+	})
+	var keys []token.Pos
+	byPos := map[token.Pos]*structBuild{}
+	for _, b := range byLocal {
+		byPos[b.pos] = b
+	}
+	for cl, b := range litOf {
+		if !claimed[cl] {
+			byPos[b.pos] = b
+		}
+	}
+	for p := range byPos {
+		keys = append(keys, p)
+	}
+	sort.Slice(keys, func(i, j int) bool { return keys[i] < keys[j] })
+	for _, p := range keys {
+		out = append(out, *byPos[p])
+	}
+	return out
+}
+
 func rulePoolItem(c *Ctx) {
 	pk := c.P.Pkg("eth2/pool")
 	if pk == nil {
@@ -708,58 +916,46 @@ func rulePoolItem(c *Ctx) {
 			return
 		}
 		fname := "pool." + funcName(fd)
-		ast.Inspect(fd.Body, func(nd ast.Node) bool {
-			cl, ok := nd.(*ast.CompositeLit)
-			if !ok {
-				return true
-			}
-			nt := namedOf(info.TypeOf(cl))
-			if nt == nil || nt.Obj().Name() != "Attestation" {
-				return true
-			}
-			base := func(e ast.Expr) types.Object {
-				for {
-					switch x := ast.Unparen(e).(type) {
-					case *ast.SelectorExpr:
-						e = x.X
-					case *ast.StarExpr:
-						e = x.X
-					case *ast.Ident:
-						return info.ObjectOf(x)
-					default:
-						return nil
-					}
+		base := func(e ast.Expr) types.Object {
+			for {
+				switch x := ast.Unparen(e).(type) {
+				case *ast.SelectorExpr:
+					e = x.X
+				case *ast.StarExpr:
+					e = x.X
+				case *ast.IndexExpr:
+					e = x.X
+				case *ast.Ident:
+					return info.ObjectOf(x)
+				default:
+					return nil
 				}
 			}
-			var bitsV, sigV ast.Expr
-			for _, el := range cl.Elts {
-				if kv, ok := el.(*ast.KeyValueExpr); ok {
-					if id, ok := kv.Key.(*ast.Ident); ok {
-						switch id.Name {
-						case "AggregationBits":
-							bitsV = kv.Value
-						case "Signature":
-							sigV = kv.Value
-						}
-					}
-				}
+		}
+		// the record an expression selects from, as a path: agg.Aggregates[j].Sig -> agg.Aggregates[j]
+		record := func(e ast.Expr) string {
+			if sel, ok := ast.Unparen(e).(*ast.SelectorExpr); ok {
+				return types.ExprString(sel.X)
 			}
+			return ""
+		}
+		for _, build := range structBuilds(info, fd.Body, "Attestation") {
+			bitsV, sigV := build.fields["AggregationBits"], build.fields["Signature"]
 			if bitsV == nil || sigV == nil {
-				return true
+				continue
 			}
 			n++
 			key := fmt.Sprintf("%s@Attestation#%d", fname, n)
 			b1, b2 := base(bitsV), base(sigV)
 			switch {
 			case b1 == nil || b2 == nil:
-				c.unm(key, cl.Pos(), "bits or signature not a field selection")
-			case b1 != b2:
-				c.bad(key, cl.Pos(), "%s returns an attestation whose AggregationBits come from `%s` and whose Signature comes from `%s`: the bits of one record paired with the signature of another is not an item that was added (and does not verify)", fname, types.ExprString(bitsV), types.ExprString(sigV))
+				c.unm(key, build.pos, "bits or signature not a field selection")
+			case b1 != b2 || record(bitsV) != record(sigV):
+				c.bad(key, build.pos, "%s returns an attestation whose AggregationBits come from `%s` and whose Signature comes from `%s`: the bits of one record paired with the signature of another is not an item that was added (and does not verify)", fname, types.ExprString(bitsV), types.ExprString(sigV))
 			default:
-				c.ok(key, cl.Pos(), "bits and signature of the same record (%s)", b1.Name())
+				c.ok(key, build.pos, "bits and signature of the same record (%s)", b1.Name())
 			}
-			return true
-		})
+		}
 	})
 	if n < 1 {
 		anchorFail("pool.item: no Attestation literal with bits and signature in package pool")
